@@ -30,6 +30,7 @@ LEVEL = "proof"
 EXE = "amodel_c06"
 
 DOMS = ["comb", "sync", "fast"]
+ALL_DOMS = DOMS + ["slow"]          # "slow" only exists in the control-inserter stream
 WORKERS = min(16, os.cpu_count() or 4)
 
 
@@ -111,6 +112,141 @@ def gen_conflict_case(rng):
     return {"tree": tree, "sigs": sigs, "drives": drives, "mode": mode, "renames": renames, "via": via}
 
 
+def _subtree(tree, m):
+    """modules whose chain of parents reaches m (m included)"""
+    out = []
+    for k in range(len(tree)):
+        j = k
+        while j is not None and j != m:
+            j = tree[j]
+        if j == m:
+            out.append(k)
+    return out
+
+
+def gen_ctl_conflict_case(rng):
+    """conflict cases whose modules are wrapped in ResetInserter / EnableInserter with per-domain control dicts.
+    An inserter only adds logic to bits (and in the domain) its wrapped statements already drive, so who drives which
+    bit - and with it the Spec's verdict - is that of the unwrapped design."""
+    clocked = ["sync", "fast", "slow"]
+    nmods = rng.choice([1, 2, 2, 3, 3, 4])
+    tree = _tree(rng, nmods)
+    nsig = rng.choice([1, 2, 2, 3, 4])
+    sigs = []
+    for _ in range(nsig):
+        w = rng.choice([1, 2, 3, 4, 4, 5, 6, 8])
+        sigs.append({"w": w, "kind": "plain", "init": rng.choice([0, rng.getrandbits(w), (1 << w) - 1]),
+                     "rl": rng.random() < 0.12})
+    mode = "dsl" if rng.random() < 0.75 else "raw"
+    drives = []
+    if rng.random() < 0.2:
+        kind = rng.choice(["inst", "iobuf", "top"])
+        s = rng.randrange(nsig)
+        if kind == "top":
+            drives.append({"sig": s, "lo": 0, "hi": sigs[s]["w"], "src": "top"})
+        else:
+            lo = rng.randrange(sigs[s]["w"])
+            drives.append({"sig": s, "lo": lo, "hi": rng.randint(lo + 1, sigs[s]["w"]), "src": kind,
+                           "mod": rng.randrange(nmods)})
+    # one module with statements in two or three clocked domains (one fragment, several controlled domains)
+    busy = rng.randrange(nmods)
+    busydoms = rng.sample(clocked, rng.choice([2, 2, 3]))
+    pairs = [(busy, d) for d in busydoms]
+    if rng.random() < 0.5:
+        pairs.append((busy, "comb"))
+    for _ in range(rng.choice([0, 1, 1, 2])):
+        pairs.append((rng.randrange(nmods), rng.choice(ALL_DOMS)))
+    disjoint = rng.random() < 0.6
+    used = {}
+    nl = rng.choice([2, 3, 3, 4, 4, 5, 6])
+    for i in range(nl):
+        s = rng.randrange(len(sigs))
+        w = sigs[s]["w"]
+        if i < len(busydoms):
+            mod, dom = pairs[i]                    # every domain of the busy module does have a statement
+        else:
+            mod, dom = rng.choice(pairs) if rng.random() < 0.85 else (rng.randrange(nmods), rng.choice(ALL_DOMS))
+        lo = rng.randrange(w)
+        hi = rng.randint(lo + 1, w)
+        if disjoint:
+            free = [b for b in range(w) if (s, b) not in used]
+            if not free:
+                free_sigs = [k for k in range(len(sigs)) if any((k, b) not in used for b in range(sigs[k]["w"]))]
+                if not free_sigs:
+                    continue
+                s = rng.choice(free_sigs)
+                w = sigs[s]["w"]
+                free = [b for b in range(w) if (s, b) not in used]
+            lo = rng.choice(free)
+            hi = lo + 1
+            while hi < w and (s, hi) not in used and rng.random() < 0.6:
+                hi += 1
+            for b in range(lo, hi):
+                used[(s, b)] = True
+        forms = ["slice", "slice", "nested", "if", "switch", "signed"]
+        if hi - lo >= 2:
+            forms += ["cat", "part"]
+        if lo == 0 and hi == w:
+            forms += ["whole"]
+        form = rng.choice(forms) if mode == "dsl" else rng.choice(["slice", "nested", "cat" if hi - lo >= 2 else "slice"])
+        drives.append({"sig": s, "lo": lo, "hi": hi, "src": "logic", "mod": mod, "dom": dom, "form": form})
+    rng.shuffle(drives)
+    renames = {}
+    if mode == "dsl" and nmods > 1 and rng.random() < 0.15:
+        leaves = [k for k in range(1, nmods) if k not in tree[1:]]
+        if leaves:
+            k = rng.choice(leaves)
+            if not any(d.get("mod") == k and d.get("dom") == "fast" for d in drives):
+                renames[str(k)] = 1
+    # the wrappers: mostly around the busy module or one of its ancestors
+    ctl = {}
+    chain = []
+    j = busy
+    while j is not None:
+        chain.append(j)
+        j = tree[j]
+    targets = [rng.choice(chain) if rng.random() < 0.9 else rng.randrange(nmods)]
+    if rng.random() < 0.35:
+        targets.append(rng.randrange(nmods))
+    for m in targets:
+        r = rng.random()
+        if r < 0.75:
+            doms = list(busydoms)
+            if rng.random() < 0.3:
+                doms = doms[:-1] + [d for d in clocked if d not in busydoms][:1]
+        elif r < 0.9:
+            doms = rng.sample(clocked, rng.choice([2, 3]))
+        else:
+            doms = [rng.choice(clocked)]
+        doms = list(dict.fromkeys(doms))
+        rng.shuffle(doms)
+        ctl.setdefault(str(m), []).append({"kind": "reset" if rng.random() < 0.65 else "enable", "doms": doms})
+    return {"tree": tree, "sigs": sigs, "drives": drives, "mode": mode, "renames": renames,
+            "via": "convert" if rng.random() < 0.1 else "build_netlist", "ctl": ctl, "ctl_first": rng.random() < 0.7,
+            "domains": clocked, "disjoint": disjoint}
+
+
+def ctl_profile(case):
+    """for the histograms: per inserter kind, the largest number of *controlled* clocked domains that have statements
+    in one fragment under that inserter (names as the inserter sees them)"""
+    best = {}
+    for m, wrappers in case["ctl"].items():
+        m = int(m)
+        for wr in wrappers:
+            for f in _subtree(case["tree"], m):
+                seen = set()
+                for d in case["drives"]:
+                    if d["src"] == "logic" and d["mod"] == f:
+                        dom = d["dom"]
+                        renamed_first = case["renames"].get(str(f)) and not (f == m and case["ctl_first"])
+                        if renamed_first and dom == "sync":
+                            dom = "fast"
+                        seen.add(dom)
+                n = len(seen & set(wr["doms"]))
+                best[wr["kind"]] = max(best.get(wr["kind"], 0), n)
+    return best
+
+
 def conflict_request(case):
     """the drives as the driver sees them (after DomainRenamer)"""
     out = []
@@ -119,7 +255,7 @@ def conflict_request(case):
             dom = d["dom"]
             if case["renames"].get(str(d["mod"])) and dom == "sync":
                 dom = "fast"
-            src = f"(l {d['mod']} {DOMS.index(dom)})"
+            src = f"(l {d['mod']} {ALL_DOMS.index(dom)})"
         else:
             src = d["src"]
         out.append(f"(d {d['sig']} {d['lo']} {d['hi']} {src})")
@@ -129,7 +265,7 @@ def conflict_request(case):
 def run_conflict_case(case):
     """build the design with real amaranth objects and convert it; returns the error kind"""
     from amaranth.hdl import (Module, Signal, Fragment, Instance, IOPort, IOBufferInstance, ClockDomain, Cat,
-                              DomainRenamer, Const, SyntaxError)
+                              DomainRenamer, Const, SyntaxError, ResetInserter, EnableInserter)
     from amaranth.hdl._ir import build_netlist, PortDirection
     from amaranth.lib.memory import Memory
     from amaranth.back import rtlil
@@ -141,7 +277,9 @@ def run_conflict_case(case):
     ports = []
     aux = []
     for i, s in enumerate(case["sigs"]):
-        if s["kind"] == "plain":
+        if s["kind"] == "plain" and ("init" in s or "rl" in s):
+            sigs.append(Signal(s["w"], name=f"s{i}", init=s.get("init", 0), reset_less=bool(s.get("rl"))))
+        elif s["kind"] == "plain":
             sigs.append(Signal(s["w"], name=f"s{i}"))
         else:
             mem = Memory(shape=s["w"], depth=4, init=[])
@@ -229,24 +367,38 @@ def run_conflict_case(case):
                 m.add_statements(d["dom"], lhs.eq(rhs))
     except SyntaxError as e:
         return "SyntaxError", str(e)[:120]
+
+    def wrap(k, sub):
+        """ResetInserter / EnableInserter around module k (and with it its subtree), one control signal per domain"""
+        for wr in case.get("ctl", {}).get(str(k), []):
+            controls = {dom: fresh(1, "ctl") for dom in wr["doms"]}
+            sub = (ResetInserter if wr["kind"] == "reset" else EnableInserter)(controls)(sub)
+        return sub
+
     try:
+        domains = case.get("domains", ["sync", "fast"])
         if dsl:
-            mods[0].domains.sync = ClockDomain("sync")
-            mods[0].domains.fast = ClockDomain("fast")
+            for dom in domains:
+                setattr(mods[0].domains, dom, ClockDomain(dom))
             for k in range(n - 1, 0, -1):
                 sub = mods[k]
+                if case.get("ctl_first", True):
+                    sub = wrap(k, sub)
                 if case["renames"].get(str(k)):
                     sub = DomainRenamer({"sync": "fast"})(sub)
+                if not case.get("ctl_first", True):
+                    sub = wrap(k, sub)
                 mods[case["tree"][k]].submodules[f"m{k}"] = sub
         else:
-            mods[0].add_domains(ClockDomain("sync"), ClockDomain("fast"))
+            mods[0].add_domains(*[ClockDomain(dom) for dom in domains])
             for k in range(n - 1, 0, -1):
-                mods[case["tree"][k]].add_subfragment(mods[k], f"m{k}")
+                mods[case["tree"][k]].add_subfragment(wrap(k, mods[k]), f"m{k}")
+        top = wrap(0, mods[0])
         named = [p for p in ports] + top_ports
         if case["via"] == "convert":
-            rtlil.convert(mods[0], ports=named)
+            rtlil.convert(top, ports=named)
         else:
-            build_netlist(Fragment.get(mods[0], None), ports=named)
+            build_netlist(Fragment.get(top, None), ports=named)
         return "ok", ""
     except Exception as e:  # noqa: BLE001
         return common.errkind(e), str(e)[:160]
@@ -273,11 +425,11 @@ def enum_conflict_case(combo, options, mode):
 def conflict_worker(task):
     kind = task[0]
     out = []
-    if kind == "random":
+    if kind in ("random", "ctl"):
         _k, seed, n = task
         rng = random.Random(seed)
         for _ in range(n):
-            case = gen_conflict_case(rng)
+            case = gen_conflict_case(rng) if kind == "random" else gen_ctl_conflict_case(rng)
             impl, msg = run_conflict_case(case)
             out.append((case, conflict_request(case), impl, msg))
     else:
@@ -306,7 +458,8 @@ def judge_conflicts(chk, records, stream):
         spec = "SyntaxError" if (dsl and kv["specearly"] == "1") else ("DriverConflict" if kv["spec"] == "1" else "ok")
         chk.count()
         nlogic = sum(1 for d in case["drives"] if d["src"] == "logic")
-        chk.distinct(req + case["mode"], nontrivial=len(case["drives"]) >= 2)
+        chk.distinct(req + case["mode"] + (json.dumps([case["ctl"], case["renames"], case["ctl_first"]], sort_keys=True)
+                                           if case.get("ctl") else ""), nontrivial=len(case["drives"]) >= 2)
         chk.hist(f"conflict.{stream}.outcome", f"{case['mode']}:{impl}")
         if stream == "random":
             chk.hist("conflict.drives", len(case["drives"]))
@@ -315,11 +468,33 @@ def judge_conflicts(chk, records, stream):
             chk.hist("conflict.modules", len(case["tree"]))
             if impl == "ok" and nlogic >= 2:
                 chk.hist("conflict.legal_multi", "yes")
+        how = ""
+        if stream == "ctl":
+            prof = ctl_profile(case)
+            wrappers = [(m, wr) for m, wrs in sorted(case["ctl"].items()) for wr in wrs]
+            how = " wrapped in " + ", ".join(
+                f"{'ResetInserter' if wr['kind'] == 'reset' else 'EnableInserter'}({{{', '.join(wr['doms'])}}}) around module {m}"
+                for m, wr in wrappers)
+            chk.hist("conflict.ctl.drives", len(case["drives"]))
+            chk.hist("conflict.ctl.modules", len(case["tree"]))
+            chk.hist("conflict.ctl.inserters", "+".join(sorted(wr["kind"] for _m, wr in wrappers)))
+            chk.hist("conflict.ctl.wrapped_module", "+".join(sorted("top" if m == "0" else "sub" for m, _wr in wrappers)))
+            for _m, wr in wrappers:
+                chk.hist("conflict.ctl.domains_in_control_dict", len(wr["doms"]))
+            for kind_, nd in sorted(prof.items()):
+                chk.hist(f"conflict.ctl.{kind_}.controlled_domains_with_statements_in_one_fragment", nd)
+            if spec == "ok":
+                chk.hist("conflict.ctl.legal.reset_controlled_domains_in_one_fragment", prof.get("reset", 0))
+            if case["renames"]:
+                chk.hist("conflict.ctl.with_domain_renamer", "inserter inside" if case["ctl_first"] else "renamer inside")
+            if any(sg.get("rl") for sg in case["sigs"]):
+                chk.hist("conflict.ctl.has_reset_less_signal", "yes")
         replay = {"family": "conflict", "case": case, "request": req, "impl": impl, "impl_msg": msg,
                   "model": model, "spec": spec, "driver": resp}
         if impl != spec:
             chk.hist("violations", "conflict:unclassified")
-            chk.violation(f"driver conflict: real code says {impl}, Spec says {spec} for {req}", replay)
+            chk.violation(f"driver conflict: real code says {impl}{' (' + msg + ')' if how and msg else ''}, "
+                          f"Spec says {spec} for {req}{how}", replay)
         elif impl != model:
             chk.hist("not_shown", "conflict")
             chk.not_shown(f"driver-table model says {model}, real code and Spec say {impl}", replay)
@@ -1472,6 +1647,12 @@ def run(chk):
                   "adjacent bit-precise nets that share a dependency is run a second time with those nets realised as one wide "
                   "choice node (Mux / If-Else / replicated select) controlled by the shared net",
         "by_n": ecount, "complete_for_n": [n for n, stride, _p in plan if stride == 1]}
+
+    # (i') conflicts, designs under ResetInserter / EnableInserter with multi-domain control dicts (seeds drawn last: the
+    # streams above see the same cases as before this stream existed)
+    n_ctl = int(os.environ.get("C06_CTL", 1500 if quick else 15000))
+    per = max(50, n_ctl // (WORKERS * 2))
+    tasks += [("conflict", ("ctl", rng.getrandbits(48), per)) for _ in range((n_ctl + per - 1) // per)]
 
     nrun = {}
     for fam, stream, recs in _pool_map(tasks):
